@@ -353,7 +353,7 @@ def constants(tier):
                 ("roles", dict(mc, hist=3, maxh=0))]
         kd = dict(mc, hist=4, compile=["S3"], parse=["D1"], inline_ss=["S1", "S2", "S4"], inline_src=["D1"], vals=["str", "num", "obj"])
     else:
-        mc = dict(hist=8, maxh=2, compile=["S2", "S3", "S4", "SX"], parse=["D1", "D2", "DX"], inline_ss=ALL_SS, inline_src=ALL_SRC, vals=["str", "num", "obj"])
+        mc = dict(hist=7, maxh=2, compile=["S2", "S3", "S4", "SX"], parse=["D1", "D2", "DX"], inline_ss=ALL_SS, inline_src=ALL_SRC, vals=["str", "num", "obj"])
         gens = [("life", dict(mc, hist=5, maxh=1, inline_ss=RICH + ["SX", "SM"])),
                 ("life2", dict(mc, hist=5, maxh=2, compile=["S2", "S3"], parse=["D1", "D2"], inline_ss=["S2", "S3"], inline_src=["D1", "D2"], vals=["str", "num"])),
                 ("deep", dict(mc, hist=8, maxh=1, compile=["S2", "S3"], parse=[], inline_ss=RICH + ["SV", "SM"], inline_src=["D1", "D2"])),
@@ -426,7 +426,7 @@ def run(res, tier, seed):
     for k, v in POOL["ss"].items():
         open(os.path.join(docs, k + ".xsl"), "w").write(v)
     pool = dict(POOL, base=docs)
-    events, crashes = run_harness(exe, wd, pool, cases, 6 if quick else 10, 600 if quick else 1500)
+    events, crashes = run_harness(exe, wd, pool, cases, 6 if quick else 12, 600 if quick else 1500)
     for what, ex in crashes:
         res.violation(what, ex)
     vlib.log("c06: RUN %.1fs (%d events)" % (time.time() - t0, len(events))); t0 = time.time()
